@@ -83,7 +83,9 @@ def gen_cases(tier, seed):
         nsrc = r.choice([1, 1, 1, 2, 3])
         spec, sources, shapes = [], [], []
         for k in range(nsrc):
-            shape = r.choice(["tree", "tree", "tree", "file", "linkfile", "emptydir", "deep"])
+            shape = r.choice(["tree", "tree", "tree", "file", "linkfile", "emptydir", "deep", "hardlink"]) if k or nsrc > 1 else r.choice(["tree", "tree", "file", "linkfile", "emptydir", "deep"])
+            if shape == "hardlink" and not any(s_ == "file" for s_ in shapes):
+                shape = "file"
             name = "s%d" % k
             if shape in ("tree", "deep"):
                 spec.append({"p": name, "k": "d"})
@@ -99,6 +101,9 @@ def gen_cases(tier, seed):
                     spec.append({"p": name + "/hardlink-of-sibling", "k": "hard", "target": r.choice(files_)})
             elif shape == "emptydir":
                 spec.append({"p": name, "k": "d"})
+            elif shape == "hardlink":
+                # another name of an earlier top-level file: a source entry of its own
+                spec.append({"p": name, "k": "hard", "target": sources[shapes.index("file")]})
             elif shape == "file":
                 spec.append({"p": name, "k": "f", "size": r.choice([0, 5, 4096, 70000]), "seed": r.randrange(1, 1 << 30), "segs": None})
             else:
@@ -110,8 +115,10 @@ def gen_cases(tier, seed):
         spec.append({"p": "by", "k": "d"})
         spec += tree.gen_tree(r, depth=1, fanout=3, kinds=("f", "d", "l"), prefix="by", max_entries=6)
         has_dir = any(s in ("tree", "deep", "emptydir") for s in shapes)
-        dstate = r.choice(["absent", "emptydir", "populated", "populated", "file"])
+        dstate = r.choice(["absent", "emptydir", "populated", "populated", "file", "linkdir"])
         flag = r.choice(["", "", "", "-T", "--target-directory", "--glob"])
+        if dstate == "linkdir" and False:
+            pass
         if nsrc > 1 and dstate in ("absent", "file"):
             dstate = "emptydir"
         if dstate == "file" and has_dir:
@@ -121,6 +128,10 @@ def gen_cases(tier, seed):
         if flag == "--target-directory" and dstate in ("absent", "file") and nsrc > 1:
             flag = ""
         pre = []
+        if dstate == "linkdir":
+            if flag == "-T":
+                flag = ""
+            pre += [{"p": "realdst", "k": "d"}, {"p": "realdst/already-there", "k": "f", "size": 4, "seed": 8, "segs": None}, {"p": "dst", "k": "l", "target": "realdst"}]
         if dstate == "file":
             pre.append({"p": "dst", "k": "f", "size": 11, "seed": 5, "segs": None})
         elif dstate in ("emptydir", "populated"):
